@@ -101,10 +101,12 @@ theorem resize_of_ex (w : Nat) (a : Ann) (h : a.ex = true) : resize w a = a := b
   unfold resize; simp [h]
 
 theorem enforce_ann_ex (w : Nat) (t : AT) : (enforce w t).ann.ex = t.ann.ex := by
-  cases t <;> simp [enforce, AT.ann, resize_ex]
+  cases t <;> simp only [enforce, AT.ann, resize_ex]
+  split <;> simp [resize_ex]
 
 theorem enforce_ann_val (w : Nat) (t : AT) : (enforce w t).ann.val = t.ann.val := by
-  cases t <;> simp [enforce, AT.ann, resize_val]
+  cases t <;> simp only [enforce, AT.ann, resize_val]
+  split <;> simp [resize_val]
 
 theorem enforce_ann_of_ex (w : Nat) (t : AT) (h : t.ann.ex = true) : (enforce w t).ann = t.ann := by
   cases t <;> simp_all [enforce, AT.ann, resize_of_ex]
